@@ -246,6 +246,7 @@ def run(chk):
     kinds = {}
     nontriv = set()
     okc = 0
+    line0_eof = 0
     for cid, cmds in cases:
         lines = out.get(cid, [])
         if cid.startswith("m"):
@@ -272,6 +273,25 @@ def run(chk):
                 ecb += 1
                 if " line=" not in l or "msg=-" in l:
                     chk.violation("diag", "error callback without message (%s)" % kind, replay)
+                else:
+                    ml = re.search(r" line=(-?\d+) .* msg=([0-9a-f]*)", l)
+                    if ml and int(ml.group(1)) <= 0:
+                        try:
+                            text_ = bytes.fromhex(ml.group(2)).decode("latin-1")
+                        except ValueError:
+                            text_ = ""
+                        # yyget_lineno() is 0 only when the lexer has already popped its last buffer, i.e. the error is reported at the end of
+                        # the input: it must then be the last error of this compilation
+                        later = [x for x in lines[lines.index(l) + 1:] if x.startswith("cb level=e")]
+                        first_add = next((k for k, x in enumerate(lines) if x.startswith("add errors=")), len(lines))
+                        later = [x for x in lines[lines.index(l) + 1:first_add] if x.startswith("cb level=e")]
+                        if not later and int(ml.group(1)) == 0:
+                            line0_eof += 1
+                            if line0_eof == 1:
+                                chk.violation("error-line-zero-at-end-of-input", "a source that ends in the middle of a rule is diagnosed with line number 0: "
+                                              "'%s' for %r" % (text_[:80], b[-60:]), replay)
+                        else:
+                            chk.violation("error-line-zero", "error callback with line number %s: '%s' (%s)" % (ml.group(1), text_[:100], kind), replay)
         if (nerr > 0) != (ecb > 0) or (nerr != ecb):
             chk.violation("accounting", "error count %d but %d error callbacks (%s)" % (nerr, ecb, kind), replay)
             continue
